@@ -526,6 +526,65 @@ func c17Subjects() []c17Subject {
 			return registryMethods(r, func() { _ = cl.Flush() }), func() { stopRegistry(r); _ = cl.Close() }
 		}},
 	)
+	// focused registry subjects: the generic ones spread their calls over many listeners and ids, so that two
+	// goroutines rarely meet on the same one; here everybody works on ONE listener that was registered with a tag slice
+	// that has spare capacity (and passes per-sample tags), and on a registry that is stopped and started again from
+	// whichever goroutine gets there while a handful of gauge ids keep being registered and time passes for the poller
+	mkRegs := func(kind string) (core.MetricRegistry, func(), func()) {
+		if kind == "gometrics" {
+			r, err := gometrics.NewGoMetricsMetricRegistry(gm.NewRegistry(), "", "p.", 100*time.Microsecond)
+			if err != nil {
+				panic(err)
+			}
+			return r, func() {}, func() { stopRegistry(r) }
+		}
+		cl, err := statsd.NewWithWriter(nopWriteCloser{io.Discard})
+		if err != nil {
+			panic(err)
+		}
+		r, err := datadog.NewMetricRegistryWithClient(cl, "p.", 100*time.Microsecond)
+		if err != nil {
+			panic(err)
+		}
+		return r, func() { _ = cl.Flush() }, func() { stopRegistry(r); _ = cl.Close() }
+	}
+	for _, kind := range []string{"gometrics", "datadog"} {
+		kind := kind
+		subs = append(subs,
+			c17Subject{kind + "-one-tagged-listener", func() ([]c17Method, func()) {
+				r, flush, done := mkRegs(kind)
+				tags := append(make([]string, 0, 8), "t:1", "u:2")
+				ld := r.RegisterDistribution("one", tags...)
+				lt := r.RegisterTiming("one.t", tags[:1]...)
+				lc := r.RegisterCount("one.c", tags...)
+				return []c17Method{
+					{"AddSampleWithTags", true, func(g, a int) { ld.AddSample(float64(a%50), fmt.Sprintf("k:%d", g), "w:x") }},
+					{"AddTimingWithTags", true, func(g, a int) { lt.AddSample(float64(a%50), fmt.Sprintf("k:%d", g)) }},
+					{"AddCountWithTags", true, func(g, a int) { lc.AddSample(1, "w:x") }},
+					{"AddSample", true, func(g, a int) { ld.AddSample(float64(a % 50)) }},
+					{"Flush", false, func(g, a int) { flush() }},
+				}, done
+			}},
+			c17Subject{kind + "-restarts", func() ([]c17Method, func()) {
+				r, flush, done := mkRegs(kind)
+				for i := 0; i < 3; i++ {
+					i := i
+					r.RegisterGauge(fmt.Sprintf("base%d", i), func() (float64, bool) { return float64(i), true })
+				}
+				r.Start()
+				return []c17Method{
+					{"StopStart", true, func(g, a int) { r.Stop(); r.Start() }},
+					{"Start", true, func(g, a int) { r.Start() }},
+					{"RegisterGaugeFewIDs", true, func(g, a int) {
+						r.RegisterGauge(fmt.Sprintf("few%d", a%4), func() (float64, bool) { return float64(a), true })
+					}},
+					{"LetThePollerTick", false, func(g, a int) { time.Sleep(300 * time.Microsecond) }},
+					{"LetThePollerTick2", false, func(g, a int) { time.Sleep(150 * time.Microsecond) }},
+					{"Flush", false, func(g, a int) { flush() }},
+				}, done
+			}},
+		)
+	}
 	return subs
 }
 
